@@ -927,6 +927,17 @@ mod intr {
             "_mm_xor_si128" => vv!(a, _mm_xor_si128),
             "_mm_andnot_si128" => vv!(a, _mm_andnot_si128),
             "_mm_shuffle_epi8" => vv!(a, _mm_shuffle_epi8),
+            "_mm_cmpeq_epi8" => vv!(a, _mm_cmpeq_epi8),
+            "_mm_cmpeq_epi16" => vv!(a, _mm_cmpeq_epi16),
+            "_mm_cmpeq_epi32" => vv!(a, _mm_cmpeq_epi32),
+            "_mm_cmpeq_epi64" => vv!(a, _mm_cmpeq_epi64),
+            "_mm_movemask_epi8" => match a {
+                [x] => match v(x) {
+                    Some(x) => hex_nodash(&unsafe { _mm_movemask_epi8(x) }.to_le_bytes()),
+                    None => BAD.into(),
+                },
+                _ => BAD.into(),
+            },
             "_mm_unpacklo_epi8" => vv!(a, _mm_unpacklo_epi8),
             "_mm_unpackhi_epi8" => vv!(a, _mm_unpackhi_epi8),
             "_mm_packus_epi16" => vv!(a, _mm_packus_epi16),
@@ -1110,8 +1121,96 @@ mod intr {
     }
 }
 
+// ------------------------------------------------------------------ `==` (PartialEq) of the vector / storage types
+
+/// `simd <backend> <type> eq <a> <b>`: `a == b` on the Rust type the machine uses for `<type>` (or on
+/// `vec128_storage` / `vec256_storage` / `vec512_storage`); `unsupported` where that type has no `PartialEq`
+/// (mirrors `CC.Simd.veq`; a type that gains or loses a `PartialEq` changes `CC.Gen.SimdEqSrc`).
+mod veq {
+    use super::*;
+
+    fn cmp<S: Stor, V: PartialEq + Store<S>>(a: &[&str]) -> String {
+        match a {
+            [x, y] => match (load::<S, V>(x), load::<S, V>(y)) {
+                (Some(x), Some(y)) => match guard(|| x == y) {
+                    Some(r) => format!("{}", r),
+                    None => "panic".into(),
+                },
+                _ => BAD.into(),
+            },
+            _ => BAD.into(),
+        }
+    }
+    fn st<S: Stor + PartialEq>(a: &[&str]) -> String {
+        match a {
+            [x, y] => match (unhex(x), unhex(y)) {
+                (Some(x), Some(y)) if x.len() == S::N && y.len() == S::N => {
+                    let (x, y) = (S::from_bytes(&x), S::from_bytes(&y));
+                    match guard(|| x == y) {
+                        Some(r) => format!("{}", r),
+                        None => "panic".into(),
+                    }
+                }
+                _ => BAD.into(),
+            },
+            _ => BAD.into(),
+        }
+    }
+    fn storage(ty: &str, a: &[&str]) -> String {
+        match ty {
+            "vec128_storage" => st::<S1>(a),
+            "vec256_storage" => st::<S2>(a),
+            "vec512_storage" => st::<S4>(a),
+            _ => BAD.into(),
+        }
+    }
+
+    #[cfg(not(feature = "no_simd"))]
+    pub fn run(backend: &str, ty: &str, a: &[&str]) -> String {
+        use ppv_lite86::x86_64::{AVX, AVX2, SSE2, SSE41, SSSE3};
+        macro_rules! m {
+            ($M:ty, $x2:expr) => {
+                match ty {
+                    "u32x4" => cmp::<S1, <$M as Machine>::u32x4>(a),
+                    "u64x2" => cmp::<S1, <$M as Machine>::u64x2>(a),
+                    "u64x2x2" => cmp::<S2, <$M as Machine>::u64x2x2>(a),
+                    "u64x4" => cmp::<S2, <$M as Machine>::u64x4>(a),
+                    "u32x4x2" => $x2,
+                    "u128x1" | "u128x2" | "u32x4x4" | "u64x2x4" | "u128x4" => "unsupported".into(),
+                    _ => storage(ty, a),
+                }
+            };
+        }
+        match backend {
+            "sse2" => m!(SSE2, cmp::<S2, <SSE2 as Machine>::u32x4x2>(a)),
+            "ssse3" => m!(SSSE3, cmp::<S2, <SSSE3 as Machine>::u32x4x2>(a)),
+            "sse41" => m!(SSE41, cmp::<S2, <SSE41 as Machine>::u32x4x2>(a)),
+            "avx" => m!(AVX, cmp::<S2, <AVX as Machine>::u32x4x2>(a)),
+            "avx2" => m!(AVX2, "unsupported".into()),
+            "generic" => "unsupported".into(),
+            _ => BAD.into(),
+        }
+    }
+    #[cfg(feature = "no_simd")]
+    pub fn run(backend: &str, ty: &str, a: &[&str]) -> String {
+        use ppv_lite86::generic::GenericMachine as G;
+        match backend {
+            "generic" => match ty {
+                "u32x4" => cmp::<S1, <G as Machine>::u32x4>(a),
+                "u64x2" => cmp::<S1, <G as Machine>::u64x2>(a),
+                "u128x1" => cmp::<S1, <G as Machine>::u128x1>(a),
+                "u32x4x2" | "u64x2x2" | "u64x4" | "u128x2" | "u32x4x4" | "u64x2x4" | "u128x4" => "unsupported".into(),
+                _ => storage(ty, a),
+            },
+            "sse2" | "ssse3" | "sse41" | "avx" | "avx2" => "unsupported".into(),
+            _ => BAD.into(),
+        }
+    }
+}
+
 pub fn step(toks: &[&str]) -> String {
     match toks {
+        ["simd", backend, ty, "eq", args @ ..] => veq::run(backend, ty, args),
         ["simd", backend, ty, op, args @ ..] => {
             if !known_op(op) {
                 return BAD.into();
